@@ -21,8 +21,8 @@ class Prop(BaseProp):
     theorems = ["C19_parse_serialize", "C19_push_form", "C19_serialize_is_spec", "C19_too_long_refused", "C19_parse_accounts",
                 "C19_truncation_rejected", "C19_varint_roundtrip", "C19_varint_shortest", "C19_varint_refuses"]
     exec_modules = ["Exec.C19"]
-    extra_modules = {"C19Src": ["C19_source_varint_is_compact_size", "C19_source_endian", "C19_source_all_translated"]}
-    pysem_funcs = ['helper.encode_varint', 'helper.little_endian_to_int', 'helper.int_to_little_endian']
+    extra_modules = {"C19Src": ["C19_source_varint_is_compact_size", "C19_source_endian", "C19_source_serialize_is_model", "C19_source_serialize_is_spec", "C19_source_too_long_refused", "C19_source_all_translated"]}
+    pysem_funcs = ['helper.encode_varint', 'helper.little_endian_to_int', 'helper.int_to_little_endian', 'script.Script.raw_serialize', 'script.Script.serialize']
     exec_import = "From BHW Require Import Lib.Base Exec.Common Exec.C19.\nFrom Coq Require Import String.\nOpen Scope string_scope."
     shard = 150
     rule = ("Ser: single-element scripts for every element length 0..521 (thorough: all; quick: all boundaries and every 7th), "
